@@ -21,8 +21,8 @@ META = {
         "must equal the first. Non-trivial: >=3 object leaves; distinct = (class, sizes, colours?, inf?, names style, source)."
     ),
     "floors": {
-        "quick": {"evaluations": 1500, "mon.roundtrip": 1500, "solver_outputs": 200, "colored": 200, "inf_cost": 100},
-        "thorough": {"evaluations": 60000, "mon.roundtrip": 60000, "solver_outputs": 8000, "colored": 8000, "inf_cost": 4000},
+        "quick": {"evaluations": 1500, "mon.roundtrip": 1500, "mon.reparse_after_edit": 1500, "solver_outputs": 200, "colored": 200, "inf_cost": 100},
+        "thorough": {"evaluations": 60000, "mon.roundtrip": 60000, "mon.reparse_after_edit": 60000, "solver_outputs": 8000, "colored": 8000, "inf_cost": 4000},
     },
     "exhaustive": {"quick": False, "thorough": False},
     "assumptions": ["node names are unique within each tree and drawn from letters, digits and underscores, as the property states"],
@@ -152,6 +152,28 @@ def roundtrip(ctx, case, x, model_trees=None, source="built"):
     if model_trees is not None:
         if sy["G"] != model_trees[0] or sy["S"] != model_trees[1]:
             ctx.viol("C11.roundtrip", case, f"{klass.__name__}: parsed trees differ from the trees the harness generated")
+    # history: parsing must build fresh objects every time.  Edit the parsed copy in place (rename, recolour, reorder
+    # children), then parse the very same text again: the new object must still equal the original, and the original
+    # must not have noticed the edit.
+    try:
+        yi = y.input if hasattr(y, "object_species") else y
+        for k, tree in enumerate((yi.object_tree, yi.species_lca.tree)):
+            nodes = list(tree.traverse("preorder"))
+            nodes[len(text) % len(nodes)].name = f"edited{k}"
+            nodes[(len(text) // 3) % len(nodes)].add_feature("color", "ABCDEF")
+            tree.children.reverse()
+        z = klass.from_dict(json.loads(text))
+        sz, sx2 = struct_of(z), struct_of(x)
+        ctx.count("mon.reparse_after_edit")
+        for k in sx:
+            if sx[k] != sz.get(k):
+                ctx.viol("C11.roundtrip", dict(case, history="parsed copy edited in place, same text parsed again"),
+                         f"{klass.__name__}: field '{k}' of a second parse of the same text reflects in-place edits made to the first parsed copy: {str(sx[k])[:120]} -> {str(sz.get(k))[:120]}")
+                break
+        if sx2 != sx:
+            ctx.viol("C11.roundtrip", dict(case, history="parsed copy edited in place"), f"{klass.__name__}: editing the parsed copy changed the original object")
+    except Exception as exc:  # noqa: BLE001
+        ctx.viol("C11.roundtrip", case, f"{klass.__name__}: second parse of the same text raised {type(exc).__name__}: {exc}")
     has_color = "color" in text
     has_inf = "Infinity" in text
     if has_color:
